@@ -58,7 +58,8 @@ pub fn plant(mut case: Case) -> Case {
     }
     let h = case.input.iter().fold(0x1234u64, |a, b| mix(a, *b as u64));
     let n = case.input.len();
-    let pattern = h % 6;
+    // long inputs: half of the cases get the "first match deep inside, many matches after it" pattern
+    let pattern = if n >= 300 && (h >> 8) % 2 == 0 { 5 } else { h % 6 };
     if pattern == 0 {
         return case; // as generated
     }
